@@ -6,8 +6,12 @@
 
 use crate::error::Result;
 use std::path::PathBuf;
+#[cfg(not(qe_verif_shuttle))]
 use std::sync::atomic::{AtomicUsize, Ordering};
 use std::sync::Arc;
+
+#[cfg(qe_verif_shuttle)]
+use shuttle::sync::atomic::{AtomicUsize, Ordering};
 
 /// Opt this process out of transparent huge pages (2MB), keeping 4KB pages.
 ///
